@@ -38,7 +38,12 @@ def _unit_worker(args):
     from . import props
     dec = props.Decoded()
     fails, n, sigs = [], 0, []
-    for path, c in gen.walk_code(code):
+    todo = [(path, c, None) for path, c in gen.walk_code(code)]
+    for ti, tw in enumerate(gen.TWINS.get(uid, [])):
+        todo += [(path, c, ti) for path, c in gen.walk_code(tw)]
+    for path, c, twin in todo:
+        if twin is not None:
+            recipe = dict(recipe, twin=twin)
         for cname, fn in _checks(prop):
             n += 1
             try:
